@@ -4,13 +4,12 @@
 # /repo itself is never modified.  The evidence file of the clean tree is preserved.
 SD=$1; ID=$2; TIER=${3:-quick}
 cd /verif
-WT=/tmp/wt_seedrun_$ID_$$
+WT=/tmp/wt_seedrun_${ID}_$$
 git -C /repo worktree add -q --detach $WT HEAD || exit 2
 cp /repo/abacusnbody/version.py $WT/abacusnbody/version.py 2>/dev/null
 cp -r /repo/abacusutils.egg-info $WT/ 2>/dev/null
 git -C $WT apply /verif/$SD/patch.diff || { git -C /repo worktree remove --force $WT; exit 2; }
-cp evidence/$ID.json /tmp/ev_$ID.json 2>/dev/null
-VERIF_REPO=$WT ./check $ID --tier $TIER > /tmp/seedrun_$ID.txt 2>&1; RC=$?
-cp /tmp/ev_$ID.json evidence/$ID.json 2>/dev/null
+OUT=/tmp/seedrun_$(basename $SD)_$ID.txt
+VERIF_REPO=$WT VERIF_EVIDENCE_DIR=/tmp/seed_evidence VERIF_REPLAY_DIR=/tmp/seed_replays ./check $ID --tier $TIER > $OUT 2>&1; RC=$?
 git -C /repo worktree remove --force $WT
-echo "check $ID on $SD: exit=$RC"; grep -E "^(VIOLATION|DETAIL|KNOWN|NOTE|MACHINERY)" /tmp/seedrun_$ID.txt | head -8
+echo "check $ID on $SD: exit=$RC"; grep -E "^(VIOLATION|DETAIL|KNOWN|NOTE|MACHINERY)" $OUT | head -8
